@@ -470,4 +470,40 @@ func TestC13TokenSweep(t *testing.T) {
 	}
 }
 
+// TestC13ManyDashes: the same dashed unit repeated 1..80 times: bookkeeping per dashed delimiter
+// (index tables, work lists) must not run out after some number of them.
+func TestC13ManyDashes(t *testing.T) {
+	r := NewRec(t, "C13", "exhaustive: a unit of padded text and one dashed tag ({{- a -}}, {{- a }}, {{ a -}}, {%- if t -%}..{%- endif -%}) repeated n = 1..80 times, as written and with a 4200-byte tail; oracle as in TestC13Dashes; non-trivial = n > 1")
+	defer r.Flush()
+	r.SetExhaustive()
+	ctx := Ctx{}
+	ctx.Set("a", Int(7))
+	ctx.Set("t", Bool(true))
+	for _, tail := range []int{0, 4200} {
+		for kind := 0; kind < 4; kind++ {
+			for n := 1; n <= 80; n++ {
+				var body []*S
+				for i := 0; i < n; i++ {
+					body = append(body, Text(fmt.Sprintf(" \n w%d \t ", i)))
+					switch kind {
+					case 0, 1, 2:
+						body = append(body, &S{K: "print", E: Var("a"), D: []int{3 - kind}})
+					default:
+						body = append(body, &S{K: "if", Conds: []*E{Var("t")}, Bodies: [][]*S{{Text(" \r\n in \n ")}}, D: []int{3, 3}})
+					}
+				}
+				body = append(body, Text(" \n end"))
+				if tail > 0 {
+					body = append(body, Text("<"+strings.Repeat("p", tail)+">"))
+				}
+				c := C13Case{Ctx: ctx, Set: TSet{{Name: "main", Body: body}}}
+				r.Case(fmt.Sprint(kind, n, tail), n > 1, fmt.Sprintf("kind %d x %d, tail %d", kind, n, tail))
+				if err := checkC13(c); err != nil {
+					r.FailEnumKey(t, "C13.dash", fmt.Sprint(kind, tail), c, err)
+				}
+			}
+		}
+	}
+}
+
 func init() { reg("C13.dash", checkC13) }
